@@ -83,7 +83,8 @@ pub fn remove_reinsert<const N: usize>(items: usize, deleted: usize, reinsert: b
     let raw = hv::raw_of_table_ref(&t);
     assert!(buckets_of(raw) == N);
     let post = snap::<T, _, N>(raw);
-    assert!(inv::<N>(&post, InvKind::Full, &h, false, false));
+    // removal keeps the free-slot accounting exact (capacity() stays honest, C08/C13)
+    assert!(inv::<N>(&post, InvKind::Full, &h, false, true));
     let q = any_id();
     let qa: u8 = any();
     let mut expect = st.mult2(q, qa);
@@ -387,5 +388,64 @@ pub fn rehash_layout_ct8<const N: usize>(full: u64, del: u64, tm: u8) {
     assert!(post.mult(q) == st.mult(q));
     assert!(post.count(DELETED) == 0);
     assert!(post.growth_left == real_capacity(N) - items);
+    core::mem::forget(t);
+}
+
+/// try_reserve(1) on the same tombstone-saturated table: must make room (in place) or report failure,
+/// never return Ok without capacity.
+pub fn rehash_layout_ct8_try<const N: usize>(full: u64, del: u64, tm: u8) {
+    let h = hashes_with_tags(tm);
+    let mut t: HashTable<u8> = HashTable::with_capacity(capreq(N));
+    let items = full.count_ones() as usize;
+    let deleted = del.count_ones() as usize;
+    let st = fill::<u8, _, N>(hv::raw_of_table(&mut t), Spec { items, deleted, kind: InvKind::Full, h: &h, distinct: false, id_is_slot: false, layout: Some((full, del)), concrete_tags: Some(tm) });
+    assert!(st.growth_left == 0);
+    let r = t.try_reserve(1, |v| h[*v as usize]);
+    assert!(r.is_ok());
+    assert!(t.capacity() >= items + 1);
+    let raw = hv::raw_of_table_ref(&t);
+    assert!(buckets_of(raw) == N);
+    let post = snap::<u8, _, N>(raw);
+    assert!(inv::<N>(&post, InvKind::Full, &h, false, true));
+    let q = any_id();
+    assert!(post.mult(q) == st.mult(q));
+    core::mem::forget(t);
+}
+
+/// iter_hash on a concrete occupancy pattern with tombstones (ids and tags concrete, position bits
+/// symbolic): the two-group case that the fully symbolic `iter_hash::<16>` only reaches in the
+/// thorough tier.
+pub fn iter_hash_layout<const N: usize>(full: u64, del: u64, tm: u8) {
+    let h = hashes_with_tags(tm);
+    let mut t: HashTable<u8> = HashTable::with_capacity(capreq(N));
+    let items = full.count_ones() as usize;
+    let deleted = del.count_ones() as usize;
+    let st = fill::<u8, _, N>(hv::raw_of_table(&mut t), Spec { items, deleted, kind: InvKind::Full, h: &h, distinct: false, id_is_slot: false, layout: Some((full, del)), concrete_tags: Some(tm) });
+    let k = any_id();
+    let hk = h[k as usize];
+    let base = unsafe { hv::raw_of_table_ref(&t).v_elem_ptr(0) } as usize;
+    let mut seen = [false; N];
+    let mut it = t.iter_hash(hk);
+    let mut steps = 0;
+    while steps < N + 1 {
+        match it.next() {
+            None => break,
+            Some(v) => {
+                let idx = base - (v as *const u8 as usize);
+                assert!(idx < N && st.c[idx] < 0x80 && !seen[idx]);
+                seen[idx] = true;
+            }
+        }
+        steps += 1;
+    }
+    assert!(steps <= N);
+    assert!(it.next().is_none());
+    let mut i = 0;
+    while i < N {
+        if st.c[i] < 0x80 && h[st.e[i] as usize] == hk {
+            assert!(seen[i]);
+        }
+        i += 1;
+    }
     core::mem::forget(t);
 }
